@@ -148,3 +148,49 @@ Theorem C02_program_scalar : forall funcs names nodes t d,
   end.
 Proof. exact program_scalar. Qed.
 Print Assumptions C02_program_scalar.
+
+(* ---- each, case and buffered literals inside the program-level theorems ------------------------------------------------
+   [lower] (Pug/Lower.v) also admits: each (with and without key) over a plain variable, case / when / default,
+   buffered string / number / boolean literals.  Scoping discipline of the lowering: an each-variable is mentioned inside
+   its own loop only (the engine never pops a variable, pug scopes it to the loop), the loop variables are distinct and
+   not re-used by a nested each, the engine's `global` is never mentioned.  C02_control_simulation and C02_program_scalar
+   above are stated about this [lower] (their proofs cover the whole fragment).
+   [data_ok_arr names d]: [data_ok] extended, under keys that are not among the scalar names, by arrays of scalars (fewer
+   than 10^10 elements) and maps of scalars (a Go map; its keys listed in ascending order in the data value). *)
+
+(* whole renders of programs with each / case over data with arrays and maps: what S prescribes without a deviation
+   flag is what the executor prints on the lowered tree *)
+Theorem C02_program_each : forall funcs names nodes t d,
+  lower_nodes funcs (goodS funcs names) nodes = Some t -> data_ok_arr names d = true ->
+  match sem_run nodes (sd_top d) with
+  | SOut o [] => run_program {| p_main := t; p_defs := [] |} d = OOk o \/
+                 run_program {| p_main := t; p_defs := [] |} d = OFuel
+  | SError [] => run_program {| p_main := t; p_defs := [] |} d = OPanic \/
+                 run_program {| p_main := t; p_defs := [] |} d = OFuel
+  | _ => True
+  end.
+Proof. exact program_each. Qed.
+Print Assumptions C02_program_each.
+
+(* one each node, from any pair of related states: the range node the lowering builds for `each v, k in c` does what S
+   prescribes for the loop — once per element in index order (array) / per member in sorted key order (data map) with
+   index / key and element bound, the body's assignments kept, nothing for an empty / null / undefined collection — and
+   afterwards the states are related again with v and k dead *)
+Theorem C02_each_simulation : forall funcs names globals fs m blk g D fl v k c body tb dot s,
+  mem c D = false -> mem v D = true -> (forall k', k = Some k' -> mem k' D = true /\ k' <> v) ->
+  lower_list (lower funcs (goodS funcs names) (undead (v :: opt_list k) D) fl) body = Some tb ->
+  R names repu jv_ok D s g ->
+  sim_res names repu jv_ok D (fun fM => exec_node [] fM dot s (NRange (opt_list k ++ [v], [[AVar c []]]) tb [])) g m
+          (sem_node globals (S fs) m blk g (PEach v k (JId c) body)).
+Proof. exact each_scalar. Qed.
+Print Assumptions C02_each_simulation.
+
+(* the two theorems are not vacuous: a concrete program with each (with / without key, over a filled, an empty and a
+   missing array and over a data map), case and literals, run through both sides *)
+Theorem C02_each_program_runs :
+  data_ok_arr e_names e_data = true /\
+  exists t, lower_nodes ex_funcs (goodS ex_funcs e_names) e_nodes = Some t /\
+            (run_program {| p_main := t; p_defs := [] |} e_data = OOk e_out \/
+             run_program {| p_main := t; p_defs := [] |} e_data = OFuel).
+Proof. exact e_program_runs. Qed.
+Print Assumptions C02_each_program_runs.
